@@ -1,12 +1,15 @@
 package props
 
 import (
+	"bufio"
 	"bytes"
 	"context"
 	"encoding/json"
 	"fmt"
 	"io"
 	"net/http"
+	"net/http/httptest"
+	"os"
 	"reflect"
 	goruntime "runtime"
 	"strconv"
@@ -38,6 +41,24 @@ import (
 // route.Produces as the router built it (its order comes from a Go map in go-openapi/analysis),
 // what each registered real producer writes for the payload, and what errors.ServeError answers
 // for the error the instrumented error responder received.
+//
+// Widening (no new field: all of it is EQUIVALENT for the code as it is and is chosen from a checksum
+// of the input line, c05Mix, so that a case replays identically):
+//   - stream A: the handler serves other requests first (the same operation with another Accept header
+//     and without credentials, an unknown path, another method), then the observed one; the handler
+//     comes from Context.APIHandler(nil), APIHandler(PassthroughBuilder), RoutesHandler,
+//     APIHandlerSwaggerUI, APIHandlerRapiDoc or middleware.Serve (a Context of its own);
+//   - the request value: http.NewRequest, httptest.NewRequest (the server's view: RequestURI,
+//     RemoteAddr), or parsed from the wire by http.ReadRequest when the header lines survive that
+//     unchanged; a query string that nothing reads; the Authorization header in other spellings with
+//     the same meaning (scheme in other case, other user and password, undecodable in other ways);
+//   - the response writer keeps the header as it was at the first WriteHeader/Write, as net/http does
+//     (three cases in four), or shows the live map as before;
+//   - debug logging on (SWAGGER_DEBUG while the Context is made, Context.SetLogger) for a quarter of the cases;
+//   - security.BasicAuth / BasicAuthCtx for the default realm (empty), beside BasicAuthRealm / BasicAuthRealmCtx;
+//   - middleware.Error with extra header maps (fields no output reads);
+//   - more plain values (typed nil pointer, empty string, zero struct, io.Reader, nil slice,
+//     json.RawMessage, a long text, a value no producer can encode), methods PATCH and OPTIONS.
 func init() {
 	proto.Register(&proto.Prop{ID: "C08", Gen: c08Gen, Exec: c08Exec, Corpus: c08Corpus()})
 }
@@ -132,6 +153,24 @@ func c08Value(i int) interface{} {
 		return 42
 	case 4:
 		return []byte("raw\x00bytes")
+	case 6:
+		return (*c08Val)(nil) // a typed nil: not the nil interface
+	case 7:
+		return ""
+	case 8:
+		return c08Val{} // all fields zero, by value
+	case 9:
+		return strings.NewReader("streamed") // a fresh stream every time the value is made
+	case 10:
+		return []string(nil)
+	case 11:
+		return json.RawMessage(`{"raw":true}`)
+	case 12:
+		return strings.Repeat("long text ", 500)
+	case 13:
+		return complex(1, 2) // no producer encodes it
+	case 14:
+		return []interface{}{1, "a", nil}
 	default:
 		return map[string]int{"a": 1}
 	}
@@ -182,19 +221,32 @@ type c08Writer struct {
 	h      http.Header
 	status int
 	body   bytes.Buffer
+	snap   bool        // keep the header as it is when the status line goes out, as net/http does
+	sent   http.Header // that header
 }
 
 func (w *c08Writer) Header() http.Header { return w.h }
 func (w *c08Writer) WriteHeader(c int) {
 	if w.status == 0 {
 		w.status = c
+		if w.snap {
+			w.sent = w.h.Clone()
+		}
 	}
 }
 func (w *c08Writer) Write(b []byte) (int, error) {
 	if w.status == 0 {
-		w.status = http.StatusOK
+		w.WriteHeader(http.StatusOK)
 	}
 	return w.body.Write(b)
+}
+
+// seen: the header fields a client sees
+func (w *c08Writer) seen() http.Header {
+	if w.snap && w.sent != nil {
+		return w.sent
+	}
+	return w.h
 }
 
 // a result that knows how to write itself: records the producer it is handed
@@ -244,7 +296,7 @@ func c08Num(s string) int {
 }
 
 // c08Data builds the handler outcome named by the token.
-func c08Data(tok string, st *c08State) (res interface{}, err error) {
+func c08Data(tok string, st *c08State, mix uint32) (res interface{}, err error) {
 	switch {
 	case strings.HasPrefix(tok, "v"):
 		v := c08Value(c08Num(tok[1:]))
@@ -255,7 +307,16 @@ func c08Data(tok string, st *c08State) (res interface{}, err error) {
 	case tok == "er":
 		return &c08ErrResponder{c08Responder{st}}, nil
 	case strings.HasPrefix(tok, "re"):
-		st.payload, st.hasPayload = c08Value(0), true
+		// the payload of the error response: mostly the struct, also a text, nil, the empty string and a
+		// value no producer encodes (errorResp only logs that); the environment observation <encs> is
+		// taken for the payload actually used
+		st.payload, st.hasPayload = c08Value([]int{0, 0, 0, 0, 1, 2, 7, 13}[mix>>9&7]), true
+		switch mix >> 20 & 3 {
+		case 1: // header fields of its own, which no output reads
+			return middleware.Error(c08Num(tok[2:]), st.payload, http.Header{"X-Trace": {"1", "2"}}), nil
+		case 2:
+			return middleware.Error(c08Num(tok[2:]), st.payload, http.Header{"X-Trace": {"1"}}, nil, http.Header{"X-Other": {"o"}, "X-Trace": {"3"}}), nil
+		}
 		return middleware.Error(c08Num(tok[2:]), st.payload), nil
 	case tok == "ni":
 		st.payload, st.hasPayload = "nope", true
@@ -272,7 +333,23 @@ func c08Data(tok string, st *c08State) (res interface{}, err error) {
 
 // c08BasicAuth: the plain or (for realms of odd length) the context-aware flavour of the realm-carrying
 // basic authenticator — the property holds for both alike.
-func c08BasicAuth(realm, fn string, st *c08State) runtime.Authenticator {
+func c08BasicAuth(realm, fn string, st *c08State, mix uint32) runtime.Authenticator {
+	if realm == "" && mix>>22&1 == 1 {
+		// the constructors without a realm argument stand for the default realm, as the empty realm does
+		// (which the context-aware constructor takes as well)
+		plain := c08AuthFn(fn, st)
+		withCtx := func(ctx context.Context, u, p string) (context.Context, interface{}, error) {
+			pr, err := plain(u, p)
+			return ctx, pr, err
+		}
+		switch mix >> 23 & 3 {
+		case 1:
+			return security.BasicAuthCtx(withCtx)
+		case 2:
+			return security.BasicAuthRealmCtx("", withCtx)
+		}
+		return security.BasicAuth(plain)
+	}
 	if len(realm)%2 == 1 {
 		plain := c08AuthFn(fn, st)
 		return security.BasicAuthRealmCtx(realm, func(ctx context.Context, u, p string) (context.Context, interface{}, error) {
@@ -335,6 +412,7 @@ func c08Run(in []string) []string {
 	if len(regKinds) != len(regKeys) {
 		panic("C08: regKinds and regKeys differ in length")
 	}
+	mix := c05Mix(in)
 
 	// ---- the spec document
 	responses := map[string]interface{}{}
@@ -373,6 +451,10 @@ func c08Run(in []string) []string {
 		item.Post = &operation
 	case "PUT":
 		item.Put = &operation
+	case "PATCH":
+		item.Patch = &operation
+	case "OPTIONS":
+		item.Options = &operation
 	default:
 		panic("C08: unsupported method " + method)
 	}
@@ -393,7 +475,7 @@ func c08Run(in []string) []string {
 			panic("C08 harness: producer registered as " + k + " is not filed under " + label)
 		}
 	}
-	api.RegisterAuth("basic", c08BasicAuth(realm, fn, st))
+	api.RegisterAuth("basic", c08BasicAuth(realm, fn, st, mix))
 	api.ServeError = func(rw http.ResponseWriter, r *http.Request, err error) {
 		same := "0"
 		if st.supplied != nil && err == st.supplied {
@@ -403,33 +485,101 @@ func c08Run(in []string) []string {
 		st.lastErr, st.gotErr = err, true
 		errors.ServeError(rw, r, err)
 	}
-	res, herr := c08Data(dataTok, st)
+	res, herr := c08Data(dataTok, st, mix)
 	if herr != nil {
 		st.supplied = herr
 	}
 	api.RegisterOperation(method, "/op", runtime.OperationHandlerFunc(func(interface{}) (interface{}, error) {
+		// the outcome is made anew for every call (the handler may serve other requests first)
 		st.ran = true
+		res, herr := c08Data(dataTok, st, mix)
+		if herr != nil {
+			st.supplied = herr
+		}
 		return res, herr
 	}))
 
+	debug := mix>>24&3 == 0
+	if debug {
+		// logger.DebugEnabled is asked while the Context (and its router) is made
+		os.Setenv("SWAGGER_DEBUG", "1")
+	}
 	ctx := middleware.NewContext(d, api, nil)
-	handler := ctx.APIHandler(nil)
+	if debug {
+		ctx.SetLogger(c08Silent{})
+	}
+	handler := ctx.APIHandler(nil) // builds ctx's router, which the observations below read
+	switch mix >> 26 & 7 {
+	case 1:
+		handler = ctx.RoutesHandler(nil)
+	case 2:
+		handler = ctx.APIHandler(middleware.PassthroughBuilder)
+	case 3:
+		handler = ctx.APIHandlerSwaggerUI(nil)
+	case 4:
+		handler = ctx.APIHandlerRapiDoc(nil)
+	case 5:
+		// a Context of its own over the same registrations. Its router files the operation's produces in
+		// an order of its own (a Go map in go-openapi/analysis), while route.Produces is observed on ctx:
+		// only for operations declaring at most one type
+		if len(opProduces) <= 1 {
+			handler = middleware.Serve(d, api)
+		}
+	}
+	os.Unsetenv("SWAGGER_DEBUG")
 
-	req, err := http.NewRequest(method, "http://localhost/op", nil)
-	if err != nil {
-		panic("C08: bad request: " + err.Error())
-	}
-	if accept != nil {
-		req.Header["Accept"] = accept
-	}
+	// the Authorization header: other spellings with the same meaning
+	auth := ""
 	switch cred {
 	case 1:
-		req.Header.Set("Authorization", "Bearer abc")
+		auth = []string{"Bearer abc", "Digest username=\"user\"", "Bearer", "Token dXNlcjpzZWNyZXQ="}[mix>>12&3]
 	case 2:
-		req.SetBasicAuth("user", "secret")
+		auth = []string{"Basic dXNlcjpzZWNyZXQ=", "basic dXNlcjpzZWNyZXQ=", "BASIC dXNlcjo=", "Basic OmE6Yg=="}[mix>>12&3] // user:secret, user:, :a:b
 	case 3:
-		req.Header.Set("Authorization", "Basic %%%not-base64")
+		auth = []string{"Basic %%%not-base64", "Basic", "Basic dXNlcg==", "Basic  dXNlcjpzZWNyZXQ="}[mix>>12&3] // no colon inside; two blanks
 	}
+	target := "/op"
+	if mix>>14&1 == 1 {
+		target = "/op?trace=1&accept=image/png"
+	}
+	mkReq := func(accept []string, auth string) *http.Request {
+		var req *http.Request
+		switch mix >> 15 & 3 {
+		case 1:
+			req = httptest.NewRequest(method, target, nil)
+		case 2:
+			// from the wire, if the parser hands back exactly these lines
+			var sb strings.Builder
+			sb.WriteString(method + " " + target + " HTTP/1.1\r\nHost: localhost\r\n")
+			for _, l := range accept {
+				sb.WriteString("Accept: " + l + "\r\n")
+			}
+			if auth != "" {
+				sb.WriteString("authorization: " + auth + "\r\n")
+			}
+			sb.WriteString("\r\n")
+			if r, err := http.ReadRequest(bufio.NewReader(strings.NewReader(sb.String()))); err == nil &&
+				len(r.Header["Accept"]) == len(accept) && (len(accept) == 0 || reflect.DeepEqual(r.Header["Accept"], accept)) &&
+				r.Header.Get("Authorization") == auth {
+				return r
+			}
+		}
+		if req == nil {
+			var err error
+			req, err = http.NewRequest(method, "http://localhost"+target, nil)
+			if err != nil {
+				panic("C08: bad request: " + err.Error())
+			}
+		}
+		if accept != nil {
+			req.Header["Accept"] = accept
+		}
+		if auth != "" {
+			req.Header.Set("Authorization", auth)
+		}
+		return req
+	}
+	req := mkReq(accept, auth)
 
 	route, routeOK := ctx.LookupRoute(req)
 	succ, rprod := "x", "."
@@ -442,7 +592,26 @@ func c08Run(in []string) []string {
 		}
 	}
 
-	w := &c08Writer{h: http.Header{}}
+	w := &c08Writer{h: http.Header{}, snap: mix>>17&3 != 0}
+	if stream == "A" && mix>>19&1 == 1 {
+		// the handler serves other requests first; what they leave in the recorders is wiped
+		func() {
+			defer func() { _ = recover() }()
+			handler.ServeHTTP(&c08Writer{h: http.Header{}}, mkReq([]string{"image/png;q=0.9, */*;q=0.1"}, ""))
+			nope := mkReq(nil, auth)
+			nope.URL.Path, nope.RequestURI = "/nope", "/nope"
+			handler.ServeHTTP(&c08Writer{h: http.Header{}}, nope)
+			other := mkReq(accept, "")
+			other.Method = map[string]string{"GET": "POST"}[method]
+			if other.Method == "" {
+				other.Method = "GET"
+			}
+			handler.ServeHTTP(&c08Writer{h: http.Header{}}, other)
+			handler.ServeHTTP(&c08Writer{h: http.Header{}}, mkReq(nil, auth))
+		}()
+		st.calls, st.handed, st.errcalls, st.lastErr, st.gotErr, st.ran = nil, nil, nil, nil, false, false
+		st.supplied = herr
+	}
 	outcome := "ok"
 	func() {
 		defer func() {
@@ -471,12 +640,17 @@ func c08Run(in []string) []string {
 				panic("C08 harness: route not found in stream R")
 			}
 			if memo != "" {
-				plain, _ := http.NewRequest(method, "http://localhost/op", nil)
+				plain := mkReq(nil, "")
 				_, withMemo := ctx.ResponseFormat(plain, []string{memo})
 				req = req.WithContext(withMemo.Context())
 			}
 			if sec {
-				_, _, _ = c08BasicAuth(realm, fn, st).Authenticate(req)
+				if mix>>11&1 == 1 {
+					// as the router hands it over for a scheme with scopes
+					_, _, _ = c08BasicAuth(realm, fn, st, mix).Authenticate(&security.ScopedAuthRequest{Request: req, RequiredScopes: []string{"s"}})
+				} else {
+					_, _, _ = c08BasicAuth(realm, fn, st, mix).Authenticate(req)
+				}
 				if herr != nil {
 					st.supplied = herr
 				}
@@ -527,7 +701,7 @@ func c08Run(in []string) []string {
 		ebody = proto.B(sw.body.String())
 	}
 
-	return []string{outcome, strconv.Itoa(w.status), proto.L(w.h.Values("Content-Type")), proto.L(w.h.Values("WWW-Authenticate")),
+	return []string{outcome, strconv.Itoa(w.status), proto.L(w.seen().Values("Content-Type")), proto.L(w.seen().Values("WWW-Authenticate")),
 		proto.L(st.calls), proto.B(w.body.String()), proto.L(st.handed), proto.L(st.errcalls), proto.Bool(st.ran),
 		succ, rprod, proto.L(encs), ebody}
 }
@@ -659,13 +833,13 @@ func c08Gen(r *proto.Rng, n int, tier string, emit func(in ...string)) {
 		if len(codes) == 2 && codes[0] == codes[1] {
 			codes = codes[:1]
 		}
-		method := r.Pick("GET", "GET", "GET", "HEAD", "HEAD", "DELETE", "POST", "PUT")
+		method := r.Pick("GET", "GET", "GET", "HEAD", "HEAD", "DELETE", "POST", "PUT", "PATCH", "OPTIONS")
 		accept := c08Accept(r, produces, dflt)
 		// data
 		var data string
 		switch r.Intn(20) {
 		case 0, 1, 2, 3, 4, 5, 14, 15, 16:
-			data = "v" + strconv.Itoa(r.Intn(6))
+			data = "v" + strconv.Itoa(r.Intn(15))
 		case 6, 17, 18:
 			data = "v" + strconv.Itoa(r.Intn(2))
 		case 7:
